@@ -70,7 +70,7 @@ RULE = (
     "sampled sub-intervals. Non-trivial = distinct (exon lengths, gaps, strand, CDS start index, CDS end index, number of "
     "CDS blocks, parent mode) with >= 2 exons or minus strand or a CDS that is a proper part of the transcript."
 )
-SCOPE = {"quick": {"GE": 7, "NR": 1600, "NI": 10}, "thorough": {"GE": 10, "NR": 24000, "NI": 30}}
+SCOPE = {"quick": {"GE": 7, "NR": 4800, "NI": 12}, "thorough": {"GE": 10, "NR": 24000, "NI": 30}}
 EXHAUSTIVE_SCOPE = {t: f"exon layouts over {s['GE']} positions, <= 3 exons, all CDS placements, all positions" for t, s in SCOPE.items()}
 FLOOR = {"quick": 4000, "thorough": 30000}
 REQUIRED_MONITORS = ["tx.pos-maps", "tx.interval-maps", "feature.maps", "cds.pos-maps", "cds.interval-maps", "cds-tx.maps",
